@@ -166,6 +166,7 @@ def install(extra_modules=()):
                             setattr(cls, aname, staticmethod(sim) if callable(sim) and not isinstance(sim, type) else sim)
                             found.setdefault(label, []).append("%s.%s.%s" % (modname, cname, aname))
     _installed.setdefault("_found", {}).update(found)
+    _replace_lock_instances(found)
     _scan_resettable()
     if "_orig" not in _ORIG:
         from eliot import _output, _errors
@@ -173,6 +174,51 @@ def install(extra_modules=()):
         _ORIG["default_logger"] = _output._DEFAULT_LOGGER
         _ORIG["registry"] = dict(_errors._error_extraction.registry)
     return found
+
+
+_REAL_LOCK_TYPES = (type(_threading.Lock()), type(_threading.RLock()))
+
+
+def _replace_lock_instances(found):
+    """Locks created while eliot was being imported (module-level or class-level `X = threading.Lock()`, or held
+    by a module-level singleton) are real ones: a simulated thread that blocks on one blocks the whole
+    simulation.  Replace every such instance that is free right now by its simulated counterpart."""
+    def sim_for(v):
+        if not isinstance(v, _REAL_LOCK_TYPES):
+            return None
+        try:
+            if not v.acquire(False):
+                return None
+            v.release()
+        except Exception:  # noqa
+            return None
+        return _sched.SimRLock() if isinstance(v, _REAL_LOCK_TYPES[1]) else _sched.SimLock()
+
+    for modname, mod in sorted(sys.modules.items()):
+        if mod is None or not (modname == "eliot" or modname.startswith("eliot.")) or ".tests" in modname:
+            continue
+        for name, val in list(vars(mod).items()):
+            new = sim_for(val)
+            if new is not None:
+                setattr(mod, name, new)
+                found.setdefault("lock-instance", []).append("%s.%s" % (modname, name))
+                continue
+            if isinstance(val, type) and getattr(val, "__module__", None) == modname:
+                for an, av in list(vars(val).items()):
+                    new = sim_for(av)
+                    if new is not None:
+                        setattr(val, an, new)
+                        found.setdefault("lock-instance", []).append("%s.%s.%s" % (modname, name, an))
+            elif hasattr(val, "__dict__") and not isinstance(val, (type, types.ModuleType, types.FunctionType)) \
+                    and type(val).__module__.startswith("eliot"):
+                for an, av in list(vars(val).items()):
+                    new = sim_for(av)
+                    if new is not None:
+                        try:
+                            setattr(val, an, new)
+                            found.setdefault("lock-instance", []).append("%s.%s.%s" % (modname, name, an))
+                        except Exception:  # noqa
+                            pass
 
 
 _CACHES = []        # objects with cache_clear() (functools caches) reachable from eliot's modules
